@@ -3,3 +3,11 @@ check("C01",
       "Exhaustive enumeration of every header over Fin x Rsv x OpCode x Masked x masks x all boundary lengths (2^k-1,2^k,2^k+1 up to 2^63-1) and of all 65536 two-byte prefixes x 10 tails x every truncation, each run through the real encoder and both real decoders and compared with an independent RFC 6455 5.2 codec; lengths are boundary-complete rather than all 2^63 values because the code branches on length only at the thresholds.",
       "Trusts the reference codec in mc/refmodel/frame.go (written from the RFC, no ws import) and the counting source in mc/env.",
       "exhaustive input-product enumeration on the real code against a reference model", "4/C01")
+check("C02",
+      "Exhaustive enumeration of ws.Cipher over lengths 0..80 x 28 offsets (small, around 2^31/2^32, MaxInt-7..MaxInt) x 16 slice alignments x 8 keys x 2 fills with guard bytes, every composition of n<=12 bytes into chunks, every 2/3-cut split to n=40, CipherReader under every short-read pattern (state key = bytes delivered), CipherWriter under every write split and every failing destination call, and the six frame helpers, all against a naive XOR loop.",
+      "Trusts the naive XOR reference; offsets are boundary-complete (the code only uses offset mod 4).",
+      "exhaustive input-product enumeration + exhaustive short-read choice tree with state-key pruning, on the real code", "4/C02")
+check("C03",
+      "Complete enumeration of all 65536 (header, endpoint state) pairs over Fin x Rsv x OpCode x Masked x 8 length classes x 16 states against the RFC rule list (accept iff no rule broken; a rejection must name a broken rule), all 65536 close codes x 7 reasons against the code table, all status/opcode predicates, and NewCloseFrameBody/Parse/Put for 7 codes x reason lengths 0..130 (ASCII and multibyte across the crop).",
+      "Trusts refmodel.CheckRules / CloseCodeClass (written from RFC 6455 5.2, 5.5, 7.4) and unicode/utf8.",
+      "exhaustive input-product enumeration on the real code against a rule-list reference", "4/C03")
